@@ -63,7 +63,7 @@ def handler_blocks(f, trynode):
 
 
 def enumerate_paths(f, stop=None, may_throw=None, max_visits=2, limit=200000, invalidate_on_call=None,
-                    start_block=None, assume=None, follow_const=True):
+                    start_block=None, assume=None, follow_const=True, decide=None):
     """Enumerate entry->end paths of f's CFG.
     stop(f,node) -> True if executing this element ends the path ('stop': e.g. a call that never returns).
     may_throw(f,node) -> True if the element may raise a C++ exception (forks to the handlers of the
@@ -140,7 +140,7 @@ def enumerate_paths(f, stop=None, may_throw=None, max_visits=2, limit=200000, in
             termk = blk.get("termk")
             if termk == "CXXTryStmt":
                 return  # dispatch blocks are only entered through exceptional edges
-            if len(succ) == 1 or blk.get("cond") is None and termk != "SwitchStmt":
+            if (len(succ) == 1 or blk.get("cond") is None and termk != "SwitchStmt") and not blk.get("tempdtorbranch"):
                 nxt = [s for s in succ if s is not None]
                 if not nxt:
                     return
@@ -171,24 +171,34 @@ def enumerate_paths(f, stop=None, may_throw=None, max_visits=2, limit=200000, in
                     run(s, v2, decisions + [(key, tag, b, blk["cond"])], trace, visits, blocks)
                 return
             if blk.get("tempdtorbranch"):
+                # the temporary is destroyed iff it was constructed on this path
+                c = blk.get("cond")
+                if c is None:
+                    c = blk.get("term")
+                if c is not None and len(succ) == 2:
+                    made = c in trace
+                    b = succ[0] if made else succ[1]
+                    if b is None:
+                        return
+                    continue
                 for s in succ:
                     if s is not None:
                         run(s, val, decisions, trace, visits, blocks)
                 return
             cn = f.nodes[blk["cond"]]
             t, fl = succ[0], succ[1]
-            cv = const_value(f, cn) if follow_const else None
-            if cv is not None:
-                b = t if cv else fl
+            known = eval_cond(f, cn, val, decide, follow_const)
+            if known is not None:
+                b = t if known else fl
                 if b is None:
                     return
+                if decide is not None:
+                    decisions = decisions + [("decided:" + render(f, cn), bool(known), blk["id"], blk["cond"])]
                 continue
             key, pol = atom(f, cn)
             if assume is not None and key in assume and key not in val:
                 val[key] = assume[key]
-            if key in val:
-                truth = (val[key] == pol)
-                b = t if truth else fl
+                b = t if (val[key] == pol) else fl
                 if b is None:
                     return
                 continue
@@ -209,6 +219,44 @@ def enumerate_paths(f, stop=None, may_throw=None, max_visits=2, limit=200000, in
     finally:
         sys.setrecursionlimit(old)
     return paths
+
+
+def eval_cond(f, cn, val, decide=None, follow_const=True):
+    """three-valued evaluation of a branch condition from what is known on the path"""
+    n = f.strip(cn, casts=False)
+    while n is not None and n["k"] == "ImplicitCastExpr" and n.get("c"):
+        n = f.strip(n["c"][0], casts=False)
+    if n is None:
+        return None
+    if follow_const:
+        cv = const_value(f, n)
+        if cv is not None:
+            return bool(cv)
+    if n["k"] == "UnaryOperator" and n.get("op") == "!":
+        r = eval_cond(f, n["c"][0], val, decide, follow_const)
+        return None if r is None else (not r)
+    if n["k"] == "BinaryOperator" and n.get("op") in ("&&", "||"):
+        a = eval_cond(f, f.node(n["lhs"]), val, decide, follow_const)
+        b = eval_cond(f, f.node(n["rhs"]), val, decide, follow_const)
+        if n["op"] == "&&":
+            if a is False or b is False:
+                return False
+            if a is True and b is True:
+                return True
+            return None
+        if a is True or b is True:
+            return True
+        if a is False and b is False:
+            return False
+        return None
+    if decide is not None:
+        d = decide(f, n)
+        if d is not None:
+            return bool(d)
+    key, pol = atom(f, n)
+    if key in val:
+        return val[key] == pol
+    return None
 
 
 def _last_return(f, trace):
